@@ -14,6 +14,9 @@
 //	         | (special tofile|todir|dangling|fifo <has-mime 0|1>)   a symbolic link or FIFO: the server lists it like a file
 //	<hier>   = (h (ps...) <prefix-trailing-slash> <user> <uslash> <home> <hslash> (c <name> <slash> n d m (o <name> l t e)...)...)
 //	<target> = (segs (rs...) <trailing 0|1>) | (path <path>)
+//	(hiertext cal|card <text> <hier> <target> <req>)                       <obs>
+//	    as hier, with <text> (control characters, non-characters, ill-formed UTF-8, markup) inside the stored
+//	    objects' property values and the collections' display names and descriptions
 //	(hseq cal|card (hstep <hier> <target> <req>)...)                       <obs of the LAST step>
 //	    ONE shared Handler over a multi-user backend (each step's user = its <hier>, carried in the
 //	    request context); a line per prefix of a sequence; the last step is judged on its own inputs
@@ -817,6 +820,9 @@ type hier struct {
 	user, home     string
 	uslash, hslash bool
 	colls          []hcoll
+	// text inside the stored objects' values and the collections' names and
+	// descriptions (not part of the hierarchy's S-expression: see hiertext)
+	text string
 }
 
 func hierSx(h *hier) string {
@@ -906,6 +912,62 @@ func testCard() vcard.Card {
 	return c
 }
 
+func testCalendarText(text string) *ical.Calendar {
+	cal := testCalendar()
+	if text != "" {
+		cal.Children[0].Props.SetText(ical.PropSummary, "summary "+text+" end")
+		cal.Children[0].Props.SetText(ical.PropDescription, text)
+	}
+	return cal
+}
+
+func testCardText(text string) vcard.Card {
+	c := testCard()
+	if text != "" {
+		c.SetValue(vcard.FieldFormattedName, "A B "+text+" end")
+		c.SetValue(vcard.FieldNote, text)
+	}
+	return c
+}
+
+// textVariants: what XML cannot carry, or carries only escaped
+func textVariants() []string {
+	var out []string
+	for c := 1; c < 0x20; c++ {
+		out = append(out, string([]byte{byte(c)}))
+	}
+	out = append(out, "\x7f", "\ufffe", "\uffff", "\xed\xa0\x80", "\xed\xbf\xbf", "\xff", "\xc0\xaf",
+		"a\x0cb\x0bc\rd\x1be", "]]>", "&<>\"'", "x]]>\x0c<y/>", "\u0085\u2028", "\U0001F600")
+	// only texts both codecs can write (a text the go-ical / go-vcard encoder refuses would
+	// be answered as a failing property, which is not what these cases are about)
+	var ok []string
+	for _, t := range out {
+		var b1, b2 bytes.Buffer
+		e1 := func() (err error) {
+			defer func() {
+				if r := recover(); r != nil {
+					err = errors.New("panic")
+				}
+			}()
+			return ical.NewEncoder(&b1).Encode(testCalendarText(t))
+		}()
+		e2 := func() (err error) {
+			defer func() {
+				if r := recover(); r != nil {
+					err = errors.New("panic")
+				}
+			}()
+			return vcard.NewEncoder(&b2).Encode(testCardText(t))
+		}()
+		if e1 == nil && e2 == nil {
+			ok = append(ok, t)
+		} else {
+			fmt.Fprintf(os.Stderr, "c11: text variant %q skipped (codec refuses it)\n", t)
+		}
+	}
+	return ok
+}
+
 type calBackend struct{ h *hier }
 
 func (b calBackend) CurrentUserPrincipal(ctx context.Context) (string, error) {
@@ -917,10 +979,10 @@ func (b calBackend) CalendarHomeSetPath(ctx context.Context) (string, error) {
 func (b calBackend) calendar(c *hcoll) caldav.Calendar {
 	out := caldav.Calendar{Path: b.h.collPath(c)}
 	if c.n {
-		out.Name = "name"
+		out.Name = "name" + b.h.text
 	}
 	if c.d {
-		out.Description = "description"
+		out.Description = "description" + b.h.text
 	}
 	if c.m {
 		out.MaxResourceSize = 1000
@@ -928,7 +990,7 @@ func (b calBackend) calendar(c *hcoll) caldav.Calendar {
 	return out
 }
 func (b calBackend) object(c *hcoll, o *hobj) caldav.CalendarObject {
-	out := caldav.CalendarObject{Path: b.h.objPath(c, o), Data: testCalendar()}
+	out := caldav.CalendarObject{Path: b.h.objPath(c, o), Data: testCalendarText(b.h.text)}
 	if o.l {
 		out.ContentLength = 42
 	}
@@ -990,10 +1052,10 @@ func (b cardBackend) AddressBookHomeSetPath(ctx context.Context) (string, error)
 func (b cardBackend) book(c *hcoll) carddav.AddressBook {
 	out := carddav.AddressBook{Path: b.h.collPath(c)}
 	if c.n {
-		out.Name = "name"
+		out.Name = "name" + b.h.text
 	}
 	if c.d {
-		out.Description = "description"
+		out.Description = "description" + b.h.text
 	}
 	if c.m {
 		out.MaxResourceSize = 1000
@@ -1001,7 +1063,7 @@ func (b cardBackend) book(c *hcoll) carddav.AddressBook {
 	return out
 }
 func (b cardBackend) object(c *hcoll, o *hobj) carddav.AddressObject {
-	out := carddav.AddressObject{Path: b.h.objPath(c, o), Card: testCard()}
+	out := carddav.AddressObject{Path: b.h.objPath(c, o), Card: testCardText(b.h.text)}
 	if o.l {
 		out.ContentLength = 42
 	}
@@ -1147,7 +1209,13 @@ func execHseq(x hx.Sx) (obs string) {
 
 func execHier(x hx.Sx) string {
 	a := x.Args()
+	text := ""
+	if x.Head() == "hiertext" {
+		text = a[1].Str()
+		a = append([]hx.Sx{a[0]}, a[2:]...)
+	}
 	srv, h, t, q := a[0].Atom, parseHier(a[1]), parseTarget(a[2]), parseReq(a[3])
+	h.text = text
 	hprefix := join(h.ps) + tslash(h.ptrail)
 	var hd http.Handler
 	if srv == "cal" {
@@ -1308,7 +1376,7 @@ func exec(in string) (line string) {
 		return in + " " + execHseq(x)
 	case "nr":
 		return in + " " + execNr(x)
-	case "hier":
+	case "hier", "hiertext":
 		return in + " " + execHier(x)
 	case "principal":
 		return in + " " + execPrincipal(x)
@@ -1895,6 +1963,42 @@ func genSizes(emit func(string), jobs chan<- davJob) {
 	}
 }
 
+// texts XML cannot carry in the stored objects and collection names: every answer
+// must still be a body the strict reader accepts, with the same accounting
+func genTexts(emit func(string)) {
+	for _, srv := range []string{"cal", "card"} {
+		data := pname{nsCal, "calendar-data"}
+		desc := pname{nsCal, "calendar-description"}
+		if srv == "card" {
+			data, desc = pname{nsCard, "address-data"}, pname{nsCard, "addressbook-description"}
+		}
+		reqs := []reqDesc{
+			{ct: "xml", body: "pf", pf: pfReq{allprop: true}},
+			{ct: "xml", body: "pf", pf: pfReq{hasProp: true, prop: []pname{data, {nsDAV, "displayname"}, desc, {nsDAV, "getetag"}}}},
+			{ct: "none", body: "empty", dl: "unknown"},
+		}
+		for vi, text := range textVariants() {
+			h := mkHier([]string{"dav"}, 2, 2, vi%2 == 1, 6) // flags 6: names and descriptions present on some collections
+			for ci := range h.colls {
+				h.colls[ci].n, h.colls[ci].d = true, ci%2 == 0
+			}
+			c0 := h.colls[0]
+			for _, t := range []struct {
+				t  target
+				dh string
+			}{{target{rs: []string{h.user, h.home, c0.name, c0.objs[0].name}}, "0"},
+				{target{rs: []string{h.user, h.home, c0.name}}, "1"},
+				{target{rs: []string{h.user, h.home}, trailing: true}, "1"},
+				{target{rs: []string{h.user}}, "inf"}} {
+				for _, q := range reqs {
+					q.dh = t.dh
+					emit(hx.L("hiertext", srv, hx.S(text), hierSx(h), targetSx(t.t), reqSx(q)))
+				}
+			}
+		}
+	}
+}
+
 // histories: two users behind ONE shared Handler, alice then bob then alice
 func genHseq(emit func(string)) {
 	thorough := hx.Tier() == "thorough"
@@ -2011,6 +2115,7 @@ func main() {
 	genSizes(emit, jobs)
 	close(jobs)
 	genHseq(emit)
+	genTexts(emit)
 	genNr(emit)
 	genHier(emit)
 	genPrincipal(emit)
